@@ -1,5 +1,7 @@
 import NeoFS.Lemmas.BalanceLocks
 import NeoFS.Model.BalanceSystem
+import NeoFS.Generated.Consts
+import NeoFS.Generated.Footprint
 /-! # C09 — Balance locks: funds stay on the lock account until burnt or until the first tick with
 `epoch ≥ until`; then exactly the remainder returns to the parent and the lock account disappears
 
@@ -296,5 +298,36 @@ example : (BalanceSystem.invoke (BalanceSystem.run BalanceSystem.init sysDemo) a
 example : SysWFHist BalanceSystem.init sysDemo := by simp only [sysDemo, SysWFHist, WFOp]; decide
 
 end System
+
+/-! ## Frame of the model, regenerated: who can create and remove (lock) account records
+
+Checked by kernel evaluation over `NeoFS.Generated.Footprint.table` (grouped by contract: `contracts`), the MAY-WRITE footprint recomputed from the Go sources on
+every run (`extract footprint`; `Model/Footprint.lean`). Lock accounts are account records, family `accPrefix ‖ address`. -/
+section Footprint
+open NeoFS.Footprint NeoFS.Generated.Footprint
+
+def fpAccounts : Fam := startingWith NeoFS.Generated.balance_accPrefix_bytes
+
+/-- Account records (hence lock accounts) are deleted only on the `token.transfer` path, i.e. by the six balance-moving methods
+(and by the upgrade migration); the safe methods and `update` never remove or write one. The tick `newEpoch`, which releases the
+locks, and `lock`, which creates them, write nothing but account records. -/
+theorem account_records_removed_only_by_balance_moving_methods :
+    onlyBy contracts "balance" "delete" fpAccounts ["transfer", "transferX", "mint", "burn", "lock", "newEpoch", "_deploy"] = true ∧
+    onlyBy contracts "balance" "put" fpAccounts ["transfer", "transferX", "mint", "burn", "lock", "newEpoch", "_deploy"] = true ∧
+    writesWithin contracts "balance" "newEpoch" [fpAccounts] = true ∧ writesWithin contracts "balance" "lock" [fpAccounts] = true := by
+  decide +kernel
+
+/-- The `Lock` notification comes from `lock` only; every method that can remove an account record also emits the
+`Transfer`/`TransferX` pair (removal happens only inside the transfer helper). -/
+theorem lock_notification_only_from_lock_and_removals_are_announced :
+    namedOnlyBy contracts "balance" "notify" "Lock" ["lock"] = true ∧
+    ["transfer", "transferX", "mint", "burn", "lock", "newEpoch"].all (fun m =>
+      named contracts "balance" m "notify" "Transfer" && named contracts "balance" m "notify" "TransferX") = true := by decide +kernel
+
+example : does contracts "balance" "newEpoch" "delete" fpAccounts = true ∧ does contracts "balance" "lock" "put" fpAccounts = true ∧
+    named contracts "balance" "lock" "notify" "Lock" = true := by decide +kernel
+example : onlyBy (withRow contracts ⟨"balance", "update", "delete", "", "", NeoFS.Generated.balance_accPrefix_bytes, false⟩)
+    "balance" "delete" fpAccounts ["transfer", "transferX", "mint", "burn", "lock", "newEpoch", "_deploy"] = false := by decide +kernel
+end Footprint
 
 end NeoFS.Props.C09
